@@ -316,8 +316,13 @@ impl<K: CacheKey + 'static> DiskCache<K> {
         }
     }
 
-    /// Write data to disk file atomically
-    async fn write_file(&self, path: &Path, data: &Bytes) -> CacheResult<()> {
+    /// Write data to a private temporary file next to `path` and return its path.
+    ///
+    /// The caller publishes it with a rename. The temp name is unique per write:
+    /// concurrent puts for one key must not share (truncate, rename away) one file.
+    async fn write_file(&self, path: &Path, data: &Bytes) -> CacheResult<PathBuf> {
+        static TEMP_SEQ: AtomicU64 = AtomicU64::new(0);
+
         let _permit = self
             .io_semaphore
             .acquire()
@@ -325,7 +330,11 @@ impl<K: CacheKey + 'static> DiskCache<K> {
             .map_err(|_| CacheError::Backend("Failed to acquire I/O semaphore".to_string()))?;
 
         // Write to temporary file first for atomicity
-        let temp_path = path.with_extension("tmp");
+        let temp_path = path.with_extension(format!(
+            "{}-{}.tmp",
+            std::process::id(),
+            TEMP_SEQ.fetch_add(1, Ordering::Relaxed)
+        ));
 
         // Ensure parent directory exists
         if let Some(parent) = temp_path.parent() {
@@ -362,10 +371,8 @@ impl<K: CacheKey + 'static> DiskCache<K> {
 
         #[cfg(feature = "verif-hooks")]
         crate::verif_hooks::sched_point("disk.write_file.after_fsync");
-        // Atomic rename
-        fs::rename(&temp_path, path).map_err(CacheError::Io)?;
 
-        Ok(())
+        Ok(temp_path)
     }
 
     /// Read data from disk file
@@ -502,15 +509,18 @@ impl<K: CacheKey + 'static> AsyncCache<K> for DiskCache<K> {
             if entry.is_expired() {
                 #[cfg(feature = "verif-hooks")]
                 crate::verif_hooks::sched_point("disk.get.expired.before_write_lock");
-                // Remove expired entry
-                if let Ok(mut index) = self.index.write() {
-                    index.remove(key);
+                // Remove the entry only if it is still an expired one: another task may
+                // have stored a fresh value for the key since the index was read
+                if let Ok(mut index) = self.index.write()
+                    && index.get(key).is_some_and(DiskCacheEntry::is_expired)
+                    && let Some(removed) = index.remove(key)
+                {
                     self.entry_count.fetch_sub(1, Ordering::Relaxed);
                     self.disk_usage
-                        .fetch_sub(entry.size_bytes as u64, Ordering::Relaxed);
+                        .fetch_sub(removed.size_bytes as u64, Ordering::Relaxed);
 
                     // Delete file
-                    let _ = fs::remove_file(&entry.file_path);
+                    let _ = fs::remove_file(&removed.file_path);
                 }
 
                 self.metrics.record_get(false, start_time.elapsed());
@@ -568,7 +578,10 @@ impl<K: CacheKey + 'static> AsyncCache<K> for DiskCache<K> {
                             access_count: 1,
                         };
 
-                        if let Ok(mut index) = self.index.write() {
+                        // (unless a put indexed the key meanwhile: its entry carries the TTL)
+                        if let Ok(mut index) = self.index.write()
+                            && !index.contains_key(key)
+                        {
                             index.insert(key.clone(), entry);
                             self.entry_count.fetch_add(1, Ordering::Relaxed);
                             self.disk_usage
@@ -601,17 +614,24 @@ impl<K: CacheKey + 'static> AsyncCache<K> for DiskCache<K> {
 
         let file_path = self.get_file_path(&key);
 
-        // Write data to disk
-        self.write_file(&file_path, &value).await?;
+        // Write data to disk (private temp file, not visible under the key's name yet)
+        let temp_path = self.write_file(&file_path, &value).await?;
         #[cfg(feature = "verif-hooks")]
         crate::verif_hooks::sched_point("disk.put.after_write_file");
 
-        // Update index
+        // Publish the file and its index entry together under the index lock, so that
+        // no other operation can observe, index or delete one without the other
         {
-            let mut index = self
-                .index
-                .write()
-                .map_err(|_| CacheError::LockTimeout("index write lock".to_string()))?;
+            let Ok(mut index) = self.index.write() else {
+                let _ = fs::remove_file(&temp_path);
+                return Err(CacheError::LockTimeout("index write lock".to_string()));
+            };
+
+            // Atomic rename
+            if let Err(e) = fs::rename(&temp_path, &file_path) {
+                let _ = fs::remove_file(&temp_path);
+                return Err(CacheError::Io(e));
+            }
 
             let entry = DiskCacheEntry::new(file_path.clone(), size_bytes, Some(ttl));
 
